@@ -427,6 +427,11 @@ func genChainFacts(repo string) string {
 		[]string{"recover()", "handlePanic", ".Next()", "defer"}, cfClosure(&recovery, "New"))
 	g.fn("recovery_handlePanic", "`recovery.handlePanic`", []string{".Abort()", ".handler", "return"}, cfWhole(&recovery, "", "handlePanic"))
 	g.fn("recovery_defaultHandler", "`recovery.defaultHandler`", []string{".JSON(", ".Abort()", "Status"}, cfWhole(&recovery, "", "defaultHandler"))
+	g.fn("recovery_captureStack", "`recovery.captureStack`", []string{"debug.Stack()", "< 0", "len(", "return", "= 0"}, cfWhole(&recovery, "", "captureStack"))
+	g.fn("recovery_handlePanic_stack", "`recovery.handlePanic`: when the stack is captured", []string{".Abort()", ".logger", ".stackTrace", "captureStack(", ".handler"}, cfWhole(&recovery, "", "handlePanic"))
+	for _, o := range []string{"WithoutLogging", "WithLogger", "WithHandler", "WithStackTrace", "WithStackSize", "WithPrettyStack"} {
+		g.fn("recovery_opt_"+o, "the option `recovery."+o+"` returns", []string{" = "}, cfClosure(&recovery, o))
+	}
 	g.fn("timeout_handler", "the closure `timeout.New` returns",
 		[]string{"shouldSkip", ".Next()", ":= *", "context.WithTimeout", ".Request =", ".Response", "timeoutWriter", "make(chan", "go {", "defer", "recover()", "close(", "<-", "select", "errors.Is", ".timeout()", ".handler(", ".logger", "panic(", "return"},
 		cfClosure(&timeout, "New"))
